@@ -195,6 +195,9 @@ def from_abs(a, spelling='native'):
             return L.ft.Number(n / d)
         return n if d == 1 else n / d
     if t == 'float':
+        import re
+        if re.fullmatch(r'-?\d+', a['v']):
+            return int(a['v'])          # a whole number beyond TLC's integers travels as its decimal spelling
         return float(a['v'])
     if t == 'txt':
         s = text_of(a)
